@@ -76,6 +76,7 @@ type worker struct {
 	panics    []int64
 	perClass  [mcCount]int64
 	okMutants int64
+	outcomes  [3]int64 // returned an error, returned a value, recovered panic
 	skipped   int64
 	distinct  map[uint64]struct{}
 	viol      map[string]*vrec
@@ -89,6 +90,11 @@ type worker struct {
 	lastBase string
 	heavy    bool
 
+	ppid       int
+	parts      int // >1: only executions with k % parts == part belong to the current unit
+	part       int
+	domain     string
+	heavySeen  map[string]int
 	sinceFlush int64
 	flushEvery int64
 	out        string
@@ -181,10 +187,20 @@ func (wk *worker) exec(cl *call, in []byte, m mut, fn func(in []byte) bool) {
 	if wk.solo > 0 && wk.k != wk.solo {
 		return
 	}
+	if wk.parts > 1 && int(wk.k%int64(wk.parts)) != wk.part {
+		return // this unit runs one residue class of the executions only (large specials are split)
+	}
 	if wk.k <= wk.resumeK {
 		return
 	}
-	// cost control: once one execution of a mutant has allocated more than 32 MiB, the remaining
+	if len(wk.skip) > 0 && wk.skip[skipKey{wk.unit, wk.k}] {
+		// a previous worker died of memory exhaustion in this very execution: the other entry points /
+		// destinations of the same mutant would ask for the same allocation and are not run either
+		wk.skipped++
+		wk.lastMut, wk.lastBase, wk.heavy = m, cl.base, true
+		return
+	}
+	// cost control: once one execution of a mutant has allocated more than 8 MiB, the remaining
 	// entry points / destinations of the same mutant (which would allocate it again) are not run.
 	// k advances all the same, so the numbering never depends on outcomes.
 	if m != wk.lastMut || cl.base != wk.lastBase {
@@ -193,10 +209,7 @@ func (wk *worker) exec(cl *call, in []byte, m mut, fn func(in []byte) bool) {
 		wk.counters["not_run_after_heavy_allocation_of_same_mutant"]++
 		return
 	}
-	if len(wk.skip) > 0 && wk.skip[skipKey{wk.unit, wk.k}] {
-		wk.skipped++
-		return
-	}
+
 	if wk.prog != nil {
 		*(*uint64)(unsafe.Pointer(&wk.prog[0])) = uint64(wk.unit)
 		*(*uint64)(unsafe.Pointer(&wk.prog[8])) = uint64(wk.k)
@@ -215,25 +228,34 @@ func (wk *worker) exec(cl *call, in []byte, m mut, fn func(in []byte) bool) {
 	wk.grow(cl.ep)
 	measure := true // runtime/metrics read: ~0.3 us
 	var a0 uint64
+	heavyNow := false
 	if measure {
 		a0 = wk.allocBytes()
 	}
 	ok, panicked := wk.guard(cl, in, m, fn)
 	if measure {
 		d := wk.allocBytes() - a0
-		if d > 32<<20 {
-			wk.heavy = true
-			wk.counters["alloc_gt_32MiB/"+epNames[cl.ep]]++
-			runtime.GC() // live heap is tiny: a forced collection costs ~0.1 ms and returns the block before the next one is asked for
+		if d > 8<<20 {
+			wk.heavy = true // the other entry points / destinations of this mutant are not run
+			heavyNow = true // and a snapshot is taken right away: a restarted worker must not pay for it again
 		}
-		if d > 1<<30 {
-			wk.counters["alloc_gt_1GiB"]++
-			if len(wk.bigAllocs) < 40 {
+		if d > 32<<20 {
+			wk.counters["alloc_gt_32MiB/"+epNames[cl.ep]]++
+			wk.counters["alloc_gt_32MiB_by_domain/"+wk.domain]++
+			if wk.heavySeen == nil {
+				wk.heavySeen = map[string]int{}
+			}
+			if hk := wk.domain + "/" + epNames[cl.ep]; wk.heavySeen[hk] < 2 && len(wk.bigAllocs) < 60 {
+				wk.heavySeen[hk]++
 				e := wk.describe(cl, in, m)
 				e["allocated_bytes"] = d
 				e["outcome"] = "returned"
 				wk.bigAllocs = append(wk.bigAllocs, e)
 			}
+			runtime.GC() // live heap is tiny: a forced collection costs ~0.1 ms and returns the block before the next one is asked for
+		}
+		if d > 1<<30 {
+			wk.counters["alloc_gt_1GiB"]++
 		}
 	}
 	wk.evals++
@@ -244,9 +266,14 @@ func (wk *worker) exec(cl *call, in []byte, m mut, fn func(in []byte) bool) {
 		wk.maxInput[cl.ep] = int64(len(in))
 	}
 	outcome := uint64(0)
+	wk.outcomes[0]++
 	if panicked {
 		outcome = 2
+		wk.outcomes[0]--
+		wk.outcomes[2]++
 	} else if ok {
+		wk.outcomes[0]--
+		wk.outcomes[1]++
 		outcome = 1
 		wk.decodable[cl.ep]++
 		if m.Class != mcValid {
@@ -259,7 +286,7 @@ func (wk *worker) exec(cl *call, in []byte, m mut, fn func(in []byte) bool) {
 		s["outcome"] = [3]string{"error", "decoded", "panic"}[outcome]
 		wk.samples = append(wk.samples, s)
 	}
-	if wk.sinceFlush >= wk.flushEvery && wk.solo == 0 {
+	if (wk.sinceFlush >= wk.flushEvery || (heavyNow && wk.sinceFlush > 0)) && wk.solo == 0 {
 		wk.flush(wk.unit, wk.k, false)
 	}
 }
@@ -432,17 +459,25 @@ func (wk *worker) flush(resume int, resumeK int64, done bool) {
 	for k, n := range wk.counters {
 		s.Counters[k] = n
 	}
+	for i, n := range wk.outcomes {
+		if n > 0 {
+			s.Counters["outcome/"+[3]string{"returned-error", "returned-value", "recovered-panic"}[i]] = n
+		}
+	}
 	if aliasSkipped > 0 {
-		s.Counters["field_mutants_making_a_length_like_window_2^21+_not_generated"] = aliasSkipped
+		s.Counters["field_mutants_making_a_length_like_window_2^17+_not_generated"] = aliasSkipped
 	}
 	if reroutedFlips > 0 {
-		s.Counters["bitflips_redrawn_instead_of_making_a_window_2^21+"] = reroutedFlips
+		s.Counters["bitflips_redrawn_instead_of_making_a_window_2^17+"] = reroutedFlips
 	}
 	if wk.okMutants > 0 {
 		s.Counters["decodable_mutants"] = wk.okMutants
 	}
 	if wk.skipped > 0 {
 		s.Counters["skipped_after_worker_death"] = wk.skipped
+	}
+	if wk.ppid != 0 && os.Getppid() != wk.ppid {
+		os.Exit(0) // the supervisor is gone (e.g. the run was truncated by the driver's watchdog)
 	}
 	b, err := json.Marshal(s)
 	if err != nil {
@@ -481,19 +516,24 @@ func argFlag(args []string, name string) bool {
 const progLen = 96 // progress file: unit (8), k (8), entry point name (NUL-terminated)
 
 func workerMain(c *mon.Ctx) {
-	// Memory policy. The garbage collector runs only when the heap reaches the limit (GOGC off), and
-	// nothing below the limit is returned to the OS: buffers the decoders allocate for hostile lengths
-	// are recycled inside the process. (Measured on this virtualised box: touching a fresh page costs
-	// 0.1..0.6 ms under load, i.e. seconds per 16 MiB buffer if every call faults its pages in again.)
-	limMiB := 512
+	// Memory policy: the soft limit of 1 GiB the design asks for, default GC pacing, and a forced
+	// collection after every execution that allocated more than 32 MiB (exec). Two alternatives were
+	// tried and dropped: GOGC=off with a small limit (the collector runs back to back whenever a unit
+	// allocates many medium-sized maps and slices), and a 192 MiB limit (a 1 MiB type descriptor
+	// nested 524288 deep needs a 256 MiB goroutine stack, which counts against the limit: the collector
+	// then rescans that stack continuously and the call looked like a hang).
+	limMiB := 1024
 	if v, err := strconv.Atoi(os.Getenv("C04_MEMLIMIT_MIB")); err == nil && v > 0 {
 		limMiB = v
 	}
 	debug.SetMemoryLimit(int64(limMiB) << 20)
-	debug.SetGCPercent(-1)
+	if v, err := strconv.Atoi(os.Getenv("C04_GOGC")); err == nil {
+		debug.SetGCPercent(v)
+	}
 	args := c.Args[1:]
 	wk := newWorker()
 	wk.seed = c.Seed
+	wk.ppid = os.Getppid()
 	wk.thorough = c.Thorough()
 	wk.res = argFlag(args, "--res")
 	wk.out = argVal(args, "--out")
@@ -544,7 +584,7 @@ func workerMain(c *mon.Ctx) {
 		wk.flush(-1, 0, true)
 		os.Exit(0)
 	}
-	wk.flushEvery = 25000
+	wk.flushEvery = 600
 	if pf := os.Getenv("C04_PROF"); pf != "" { // development aid: CPU profile and per-unit timing of one worker
 		var j, cn int
 		fmt.Sscanf(argVal(args, "--chunk"), "%d/%d", &j, &cn)
@@ -566,6 +606,12 @@ func workerMain(c *mon.Ctx) {
 		wk.flush(-1, 0, true)
 		pprof.StopCPUProfile()
 		os.Exit(0)
+	}
+	if dir := os.Getenv("C04_WPROF"); dir != "" { // development aid: CPU profile of the first 60 s of every worker
+		if f, err := os.Create(fmt.Sprintf("%s/w-%d.prof", dir, os.Getpid())); err == nil {
+			pprof.StartCPUProfile(f)
+			defer pprof.StopCPUProfile()
+		}
 	}
 	// Long-lived worker: an optional first unit (the one a previous instance died in, resumed behind
 	// its last snapshot), then units pulled from the counter shared by all workers of the run.
@@ -590,5 +636,6 @@ func workerMain(c *mon.Ctx) {
 		wk.flush(-1, 0, false)
 	}
 	wk.flush(-1, 0, true)
+	pprof.StopCPUProfile()
 	os.Exit(0)
 }
